@@ -23,24 +23,25 @@ PROP = dict(
         "MM.C12.openWalk_chain",
         "MM.C12.C12_converges",
         "MM.C12.C12_converges_all",
+        "MM.C12.C12_converges_presence",
         "MM.C12.C12_converges_run",
     ],
     spec=True,
-    rule="cases = random topology (chain/ring/star/clique/tree+extra edges, 2..5 agents, rarely 9..20; thorough up to 7) x random local routes (CIDR v4/v6, domain exact/wildcard, forward; base metrics 0..10 and 65534) x op schedule written while driving the real mesh: bring links up (with/without table replay, before or between deliveries), deliver/duplicate/lose a chosen queued frame, announce, withdraw, expire a cached key, replay a table, stale cleanup; every case drains to quiescence and dumps the whole state. After every op both sides print the acting agent's counter, seen cache, all four tables (metric, sequence, path, last-update tick) and the touched queues (origin, sequence, path, seen-by, routes+metrics). Non-trivial = an op that handled a frame, replayed a table or changed a cache/table. Engine c12 adds clean convergence cases (whole topology up before any delivery, only deliveries/duplicates/announcements, every agent announces, FIFO drain, `dump converged`). spec: every learned route's next hop is a linked neighbour and the head of the path, consecutive path agents are linked, the path ends at the origin, the handleStreamOpen walk reaches the origin; at `dump converged` every agent holds every other agent's presence and every advertised route",
+    rule="cases = random topology (chain/ring/star/clique/tree+extra edges, 2..5 agents, rarely 9..20; thorough up to 7) x random local routes (CIDR v4/v6, domain exact/wildcard, forward; base metrics 0..10 and 65534) x op schedule written while driving the real mesh: bring links up (with/without table replay, before or between deliveries), deliver/duplicate/lose a chosen queued frame, announce, withdraw, expire a cached key, replay a table, stale cleanup, lose a connection (disconnect); rare streams: an origin with 256..315 routes (announcements and replays span several advertisements), a reroute case (link behind the next hop disappears while an equally long alternative exists), and a `race` stress op (one announcement handed to a fresh agent by k goroutines at once); every case drains to quiescence and dumps the whole state. After every op both sides print the acting agent's counter, seen cache, all four tables (metric, sequence, path, last-update tick) and the touched queues (origin, sequence, path, seen-by, routes+metrics). Non-trivial = an op that handled a frame, replayed a table or changed a cache/table. Engine c12 adds clean convergence cases (whole topology up before any delivery, only deliveries/duplicates/announcements, every agent announces, FIFO drain, `dump converged`). spec: every learned route's next hop is a linked neighbour and the head of the path, consecutive path agents are linked, the path ends at the origin, the handleStreamOpen walk reaches the origin; at `dump converged` every agent holds every other agent's presence and every advertised route",
     nontrivial=lambda op, out: out.startswith(("r=new", "r=seen", "r=drop", "r=ord:", "r=removed")),
     trusted_base=[
         'MM/Model/C11.lean models HandleRouteAdvertise / HandleRouteWithdraw / floodAdvertisementEncrypted / floodWithdrawal / floodFrame / AnnounceLocalRoutes / WithdrawLocalRoutes / SendFullTable / cleanupSeenCache (flood.go), Process*RouteAdvertise / AddLocal*Route / CleanupStale*Routes (manager.go) and the four AddRoute update rules; tied to the code by the differential run (N real Flooder+Manager pairs over a queueing PeerSender)',
         'harness/main/eng_c11.go delivers frames the way Agent.handleRouteAdvertise / handleRouteWithdraw do (DecodeRouteAdvertise / DecodeRouteWithdraw, then HandleRouteAdvertise / HandleRouteWithdraw with the decoded fields); Agent.handlePeerConnected -> SendFullTable is the `replay` op',
         'harness accessors (overlay, add-only): flood.C11ExpireSeen runs the production cleanupSeenCache on one aged entry; routing.C11Stamp rewrites LastUpdate of the entries touched by an op to a logical tick',
-        "lib/floodlib.py: the model takes SendFullTable's origin order from the implementation's answer and checks it is a permutation",
+        "lib/floodlib.py + follow mode: where Go map iteration decides (the origin order and x[0] path choice of SendFullTable, which routes share an advertisement when there are more than 255) the model takes the outcome from the implementation's answer and checks that it is an admissible one (hintOK / groupingOK)",
     ],
     assumptions=[
         'time is a logical clock (one tick per op); seen-cache expiry is an op that may remove any key at any moment (over-approximates the TTL)',
-        'u64 sequence numbers do not wrap; paths and seen-by lists have < 256 entries (one-byte count on the wire); < 256 routes per advertisement (C06)',
+        'u64 sequence numbers do not wrap; the one-byte path / seen-by counts never wrap (theorem C15_no_wrap, with fixes/C15-wire-count-replay.patch); advertisements are split into groups of at most 255 routes like splitRoutes does, its byte budget is never binding for the route encodings used (<= 24 bytes per route)',
         "per-key route lists have <= 12 entries (Go's sort.Slice is a stable insertion sort only up to 12 elements)",
-        'links are only added (stable topology); peer disconnect (route removal per next hop) is outside this model. ROUTE_WITHDRAW (WithdrawLocalRoutes / HandleRouteWithdraw / floodWithdrawal) IS modelled: it shares the seen cache, the loop test and floodFrame with advertisements',
+        'peer disconnect IS modelled (`disconnect`: queued frames lost, RemoveRoutesFromPeer at both ends, as Agent.handlePeerDisconnect does); the C12 path theorems assume a stable topology (no disconnect in the history) as the property does. ROUTE_WITHDRAW (WithdrawLocalRoutes / HandleRouteWithdraw / floodWithdrawal) IS modelled: it shares the seen cache, the loop test and floodFrame with advertisements',
         'plain (non-sealed-box) configuration: paths travel as plaintext EncryptedData, display names ignored',
-        'C12_converges assumes reliable delivery (no frame of the announcement left in flight), no connect/replay/loss/expiry/stale cleanup during the flood, no hop limit, and covers CIDR/domain/forward routes (the presence route is covered by the differential run only)',
+        'C12_converges* assume reliable delivery (no frame of the announcement left in flight), no connect/disconnect/replay/withdraw/loss/expiry/stale cleanup during the flood, no hop limit and at most 255 agents (so that the wire-count guard never stops the flood); they cover CIDR/domain/forward routes (C12_converges_all) and the presence route (C12_converges_presence)',
     ],
     chunk=6000,
     search_seconds=45,
